@@ -478,7 +478,21 @@ func (e *Engine) call(fn *ssa.Function, s *St, in *ssa.Call, ip int) (next []suc
 	case ipfx + "runtime.GetExecutingScriptHash":
 		return set(constBytes(string(e.world.hashOf(e.names[e.cur]))))
 	case ipfx + "native/management.HasMethod":
-		return set(BoolV{tTrue})
+		hb, ok := args[0].(BytesV)
+		if !ok {
+			return set(BoolV{tFalse})
+		}
+		h, okc := isConstBytes(hb)
+		m, okm := isConstBytes(args[1].(BytesV))
+		if !okc || !okm || !args[2].(IntV).t.isC() {
+			panic("management.HasMethod on symbolic arguments")
+		}
+		for _, n := range e.names {
+			if string(e.world.hashOf(n)) == h {
+				return set(BoolV{B(e.resolveMethod(n, m, int(args[2].(IntV).t.n.Int64())) != nil)})
+			}
+		}
+		return set(BoolV{tFalse}) // not a deployed contract
 	case "github.com/nspcc-dev/neofs-contract/common.ResolveFSContract":
 		nm, _ := isConstBytes(args[0].(BytesV))
 		return set(constBytes(string(e.world.hashOf(nm))))
